@@ -1,4 +1,5 @@
 """C06 — Result independent of declaration order, file partition, file order and run (DESIGN.md §3 C06)."""
+import re
 from vlib.mir import norm, loc_str, op_place, loc_macro
 from vlib.facts import PRODUCT
 
@@ -238,6 +239,31 @@ def rule_stable(ctx, rep, rid="R-C06-stable"):
         r.note("no sort call in product code today (rule expects zero unstable sorts; the positive example is seeded/C06-J)")
 
 
+def rule_toporder(ctx, rep, rid="R-C06-toporder"):
+    """The later transforms rely on dependencies coming first.  The order handed out by DeclarationsGraph::sorted_ids is the order petgraph's
+    toposort produced, mapped to names: nothing re-ranks it (a second sort by some depth or index is an order that is topological only for
+    the inputs it was tried on)."""
+    r = rep.rule(rid, "sorted_ids returns the topological order as petgraph produced it (mapped to names): no further sort, reverse or re-ranking of that list",
+                 floor=1, floor_what="toposort call")
+    bs = [b for b in ctx.prog.bodies.values() if b.f["crate"] == "ironplc_analyzer" and "DeclarationsGraph::sorted_ids" in norm(b.id) and "::test" not in norm(b.id)]
+    if not bs:
+        rep.error(rid, "DeclarationsGraph::sorted_ids not found")
+        return
+    ts = [c for b in bs for c in b.calls() if (c.callee or "") == "petgraph::algo::toposort"]
+    if len(ts) != 1:
+        r.finding("sorted_ids|toposort-calls=%d" % len(ts), "%s:%d" % (bs[0].f["file"], bs[0].f["line"]), "expected exactly one petgraph::algo::toposort call")
+    else:
+        r.ok("sorted_ids|toposort", "%s:%d" % (bs[0].f["file"], bs[0].f["line"]))
+    for b in sorted(bs, key=lambda x: x.id):
+        k = 0
+        for c in sorted(b.calls(), key=lambda c: (c.loc[0], c.loc[1])):
+            m = (c.callee or "").split("::")[-1]
+            if m in ("sort", "sort_by", "sort_by_key", "sort_by_cached_key", "sort_unstable", "sort_unstable_by", "sort_unstable_by_key", "reverse", "rev", "swap", "dedup") and re.search(r"slice|vec::Vec|Iterator|iter::", c.callee or ""):
+                k += 1
+                r.finding("%s|%s#%d" % (norm(b.id).split("DeclarationsGraph::")[-1], m, k), loc_str(b.f, c.loc), "%s() inside sorted_ids: the list that is returned is no longer the order toposort "
+                          "produced; whether dependencies still come first depends on the order in which the declarations were written" % m)
+
+
 def run(ctx, rep):
     rep.not_decided += ["that verdicts/codes are invariant under permutation and partition (value-level; e.g. which node of a cycle toposort reports)",
                         "petgraph's toposort determinism for a given insertion order (trusted)"]
@@ -246,6 +272,7 @@ def run(ctx, rep):
     rule_types(ctx, rep)
     rule_pipeline(ctx, rep)
     rule_stable(ctx, rep)
+    rule_toporder(ctx, rep)
     # which of two same-named declarations survives must not depend on the order of the files: a duplicate is always an error
     from rules.c03 import rule_dupreport
     rule_dupreport(ctx, rep, rid="R-C06-dupreport")
